@@ -284,6 +284,33 @@ func runRE1(c *Ctx, s *Sink) {
 			})
 		}
 		walk(fd.Body)
+		// uses that raise the error (right-hand side of an assignment, operand of a return) are not acceptances
+		total, raised := 0, 0
+		ast.Inspect(fd.Body, func(m ast.Node) bool {
+			switch x := m.(type) {
+			case *ast.SelectorExpr:
+				if isObj(info, x, "io", "ErrUnexpectedEOF") {
+					total++
+				}
+			case *ast.AssignStmt:
+				for _, r := range x.Rhs {
+					if isObj(info, ast.Unparen(r), "io", "ErrUnexpectedEOF") {
+						raised++
+					}
+				}
+			case *ast.ReturnStmt:
+				for _, r := range x.Results {
+					if isObj(info, ast.Unparen(r), "io", "ErrUnexpectedEOF") {
+						raised++
+					}
+				}
+			}
+			return true
+		})
+		if n == 0 && total == raised {
+			s.Pass(nil, fname, fd.Pos(), fmt.Sprintf("io.ErrUnexpectedEOF is only raised (%d site(s)), never compared", raised))
+			return
+		}
 		if n == 0 {
 			s.Undecided(nil, fname, fd.Pos(), "io.ErrUnexpectedEOF is used outside an if/switch condition")
 			return
@@ -413,6 +440,12 @@ func errTestsSound(info *types.Info, scope ast.Node, v types.Object, from token.
 				if len(x.Rhs) == 1 {
 					if call, ok := ast.Unparen(x.Rhs[0]).(*ast.CallExpr); ok {
 						sameClass, _ = isStreamRead(info, call)
+					}
+					// err = <sentinel error other than io.EOF>: the error stays an error (often io.EOF made fatal)
+					if sel, ok := ast.Unparen(x.Rhs[0]).(*ast.SelectorExpr); ok {
+						if o, ok := info.Uses[sel.Sel].(*types.Var); ok && o.Pkg() != nil && o.Parent() == o.Pkg().Scope() && isErrorType(o.Type()) && !isObj(info, sel, "io", "EOF") {
+							sameClass = true
+						}
 					}
 				}
 				for _, l := range x.Lhs {
